@@ -15,7 +15,8 @@ COQ_TARGETS = ['Props/C07.vo', 'Run/RunC07.vo']
 PROPS_MODULE = 'Props.C07'
 THEOREMS = ['layer_roundtrip', 'layer_roundtrip_role', 'known_1_witness', 'small_layers_fit', 'document_roundtrip', 'save_succeeds',
             'visible_bit14_needed', 'font_page_u16_needed', 'default_font_page_u16_needed', 'preview_offset_needed',
-            'negative_width_needed', 'title_u32_needed', 'before_fix_refuted', 'before_fix_row_shift_refuted', 'after_fix_regression', 'fix_is_local',
+            'negative_width_needed', 'title_u32_needed', 'scalar_char_needed', 'title_utf8_needed', 'loader_checks_silent_on_writer_output',
+            'before_fix_refuted', 'before_fix_row_shift_refuted', 'after_fix_regression', 'fix_is_local',
             'mode_bytes_roundtrip']
 SWEEP_LEMMAS = ['IcyLayerProofs.short_word_sweep (all 16384 attribute words a visible cell may carry: how the reader classifies a | SHORT_DATA and a)',
                 'IcyDocProofs.mode_bytes_sweep (from_byte (to_byte v) = v and to_byte v < 256 for every variant of the four generated mode enums)',
@@ -26,6 +27,8 @@ TRUSTED = ['Coq 8.16.1 kernel + vm_compute (model evaluation in stage C, the non
            'the container oracle: PNG zTXt chunks + zlib + base64 return the keyword/payload pairs in file order (stated as the hypothesis unpack (pack cs) = Some cs; exercised by stage C/S on every run; stage C reads the real file with an independent python PNG reader)',
            'the payload codecs of SAUCE (C11), the Ice palette text (C16) and PSF2 fonts (C17) appear as hypotheses of document_roundtrip; stage S checks them on the real code',
            'format!("{k}") / str::parse::<usize> are modelled by Coq\'s DecimalString (digits only, no sign)',
+           'char::from_u32 and String::from_utf8_lossy are Model/Unicode.v of property C10 (char_from_u32, utf8_lossy; utf8_valid = from_utf8(..).is_ok() is proved '
+           'equivalent to "encoding of scalar values" there); tied to the std functions by C10\'s stage C and here by damaged files with ill-formed titles / font names / character fields',
            'harness/src/c07.rs, props/lib_c07.py (python PNG reader/writer) and the python oracle of the search stage']
 UNMODELLED = ['layers of role Image (sixel payload) and `~k` continuation chunks (layers whose record exceeds 3 000 000 bytes): explicit Err 8 in the model; '
               'small_layers_fit proves no layer of the quantified size (<= 200 x 120, title < 2.6 MB) needs one',
@@ -36,7 +39,7 @@ UNMODELLED = ['layers of role Image (sixel payload) and `~k` continuation chunks
 ASSUMPTIONS = ['unpack (pack cs) = Some cs  -- the PNG/zlib/base64 container returns the chunks in order',
                'sauce_dec (sauce_enc w h ice font0 s) = Ok (Some (sauce_carried …)), pal_dec (pal_enc p) = Ok (pal_norm p), '
                'font_dec (font_name f) (font_psf2 f) = Ok (font_norm f)  -- payload codecs of C11 / C16 / C17',
-               'Rust integer casts behave as written into the model (`as u8/u16/u32` = mod, u32 as i32 = two\'s complement); a char is its scalar value',
+               'Rust integer casts behave as written into the model (`as u8/u16/u32` = mod, u32 as i32 = two\'s complement); a char is its scalar value, a String its (valid) UTF-8 bytes',
                'HashMap<usize, BitFont>: insert overwrites, iteration visits every key once (order arbitrary: the theorem holds for every order)']
 RULE = ('documents per the quantifier: 1..6 layers, sizes 0..200 x 0..120 (most small, a share medium/large), offsets -50..50, every '
         'combination of the five layer flags, modes, colour tags, transparency, Unicode titles (empty, multi-byte, astral), raw `lines` '
@@ -45,7 +48,7 @@ RULE = ('documents per the quantifier: 1..6 layers, sizes 0..200 x 0..120 (most 
         'invisible (bare and with extra flag bits) with the boundary values 255/256 of every field, palettes of 1..300 colours or the '
         'default one, font slots 0..300 (slot 0 always present, every referenced page present), with and without SAUCE; plus directed '
         'boundary documents. Stage C also runs damaged LAYER_/ICED/FONT_ payloads (truncations at every field boundary, flipped bytes, '
-        'forged attribute words and length fields). A case is non-trivial when it has at least one visible cell; distinct = distinct specs.')
+        'forged attribute words and length fields, surrogate / out-of-range character fields, ill-formed UTF-8 in titles and font names). A case is non-trivial when it has at least one visible cell; distinct = distinct specs.')
 
 IMPORTS = 'From IE Require Import Model.IcyLayer Model.IcyDoc Run.RunC07.\nLocal Open Scope N_scope.'
 TRANSPARENT = 1 << 31
@@ -222,6 +225,10 @@ def directed_docs():
     out.append(('buffer-0x0', base_doc([base_layer(lines=[[A]])], w=0, h=0)))
     out.append(('six-layers', base_doc([base_layer(title='L%d' % i, ox=i - 3, oy=3 - i, w=i, h=6 - i, lines=[[A] * i] * (6 - i)) for i in range(6)])))
     out.append(('title-astral', base_doc([base_layer(title='\U0001F600\U0010FFFF\u0000é', lines=[[A]])])))
+    # the loader decodes titles and font names with from_utf8_lossy: the first/last scalar of every encoded length, U+FFFD itself
+    edges = '\u007f\u0080\u07ff\u0800\ud7ff\ue000\ufffd\uffff\U00010000\U0010ffff'
+    out.append(('title-utf8-boundaries', base_doc([base_layer(title=edges, lines=[[A]]), base_layer(title='\ufffd', lines=[[A]])],
+                                                  fonts=[dict(slot=0, name=edges, kind=0, a=0, b=0, c=0), dict(slot=3, name='\ufffd\ufffd', kind=1, a=8, b=16, c=7)])))
     out.append(('colour-tag', base_doc([base_layer(color=(0, 0, 0), lines=[[A]]), base_layer(color=(255, 254, 253), transparency=255, lines=[[A]])])))
     return out
 
@@ -304,15 +311,24 @@ def layer_vec(l):
 
 def doc_vec(o):
     v = [o['w'], o['h'], o['btype'], o['ice'], o['pmode'], o['fmode'], int(o['sauce'] is not None), len(o['fonts'])] + sorted(o['fonts'])
+    for k in sorted(o['fonts']):
+        v += [len(o['fonts'][k]['name'])] + list(o['fonts'][k]['name'])
     v.append(len(o['layers']))
     for l in o['layers']: v += layer_vec(l)
     return v
 
 def norm_doc_vec(v):
-    """sort the font-slot slice of a model / implementation document vector"""
+    """sort the font slots (and their names with them) of a model / implementation document vector"""
     if v is None or len(v) < 9 or v[0] != 0: return v
     n = v[8]
-    return v[:9] + sorted(v[9:9 + n]) + v[9 + n:]
+    slots = v[9:9 + n]; p = 9 + n; names = []
+    for _ in range(n):
+        if p >= len(v): return v
+        names.append(v[p:p + 1 + v[p]]); p += 1 + v[p]
+    order = sorted(range(n), key=lambda i: slots[i])
+    out = v[:9] + [slots[i] for i in order]
+    for i in order: out += names[i]
+    return out + v[p:]
 
 def g_chunks(chunks):
     return L.g_list(['(%s, %s)' % (L.g_bytes(k.encode('latin-1')), L.g_bytes(p)) for k, p in chunks])
@@ -348,8 +364,13 @@ def mutate_payload(rng, p):
     elif k < 0.8 and len(p) >= hdr:
         j = rng.choice([4 + tl, 4 + tl + 5, 4 + tl + 9, 4 + tl + 14])     # role, mode, colour alpha, transparency
         p[j] = rng.choice([0, 1, 2, 3, 255])
-    elif k < 0.9 and len(p) >= 4:
+    elif k < 0.86 and len(p) >= 4:
         p[0:4] = rng.choice([0, 1, tl + 1, len(p), len(p) - 4, 1 << 31]).to_bytes(4, 'little')
+    elif k < 0.93 and len(p) >= hdr:                       # the title bytes: from_utf8_lossy
+        t = rng.choice(BAD_UTF8 + [rand_bytes(rng), rand_bytes(rng)])
+        if tl and rng.random() < 0.5:
+            i = rng.randrange(tl); t = bytes(p[4:4 + i]) + t + bytes(p[4 + i + 1:4 + tl])
+        p = bytearray(len(t).to_bytes(4, 'little') + t + bytes(p[4 + tl:]))
     else:
         p += bytes(rng.randrange(256) for _ in range(rng.randint(1, 20)))
     # keep the loop bounds of the damaged record small (the model iterates in unary)
@@ -360,6 +381,20 @@ def mutate_payload(rng, p):
             w = int.from_bytes(p[4 + tl + 23:4 + tl + 27], 'little'); h = int.from_bytes(p[4 + tl + 27:4 + tl + 31], 'little')
             if 400 < w < (1 << 31) or 400 < h < (1 << 31): return None
     return p
+
+# ill-formed (and a few well-formed boundary) byte strings for titles / font names: every way Utf8Chunks can break
+BAD_UTF8 = [b'\xff', b'A\xc3', b'\xc3(', b'\x80', b'\xbfz', b'\xc0\x80', b'\xc1\xbf', b'\xe0\x80\x80', b'\xe0\x9f\xbf', b'\xed\xa0\x80', b'\xed\xbf\xbf',
+            b'\xe2\x82', b'\xe2\x82A', b'\xe2(\xa1', b'\xf0\x8f\xbf\xbf', b'\xf0\x9f\x98', b'\xf0\x9f\x98A', b'\xf0\x9f', b'\xf0', b'\xf4\x90\x80\x80',
+            b'\xf5\x80\x80\x80', b'\xf8\x88\x80\x80\x80', b'ok\xffok\xfe\xfdok', b'\xef\xbf\xbd\xff\xef\xbf\xbd', b'\xed\x9f\xbf\xee\x80\x80\xf4\x8f\xbf\xbf\xc2\x80\xdf\xbf\xe0\xa0\x80',
+            b'\x00\xff\x00', b'\xf0\x90\x80\x80\xf0\x90\x80', b'\xc2\xc2\x80', b'\xe1\x80\xe1\x80\x80']
+
+def rand_bytes(rng):
+    return bytes(rng.choice([rng.randrange(256), rng.randrange(0x80, 0x100), rng.choice(b'\xc2\xe0\xed\xf0\xf4\x80\xbf\x9f\xa0\x8f\x90A')]) for _ in range(rng.randint(1, 9)))
+
+def font_with_name(font0, name):
+    """the FONT_k payload of a real file with its name replaced"""
+    n = int.from_bytes(font0[:4], 'little')
+    return len(name).to_bytes(4, 'little') + name + font0[4 + n:]
 
 def mk_payload(rows, w, h, title=b't', role=0, mode=0, length=None, flags=1):
     """a LAYER_ record around the given row bytes (python's own writer of the header, for directed damaged inputs)"""
@@ -384,11 +419,13 @@ def directed_payloads():
             mk_payload(shortc(0, 65) + E, 3, 2, length=(1 << 64) - 47), mk_payload(shortc(0, 65) + E, 3, 2, mode=3), mk_payload(shortc(0, 65) + E, 3, 2, mode=2, flags=0xFFFFFFFF),
             mk_payload(shortc(0, 65) + E, -1, 2), mk_payload(shortc(0, 65) + E, 3, -2), mk_payload(shortc(0, 65) + E, 3, 2, title='täst'.encode()),
             mk_payload(shortc(0, 65) + E, 3, 2, role=2), mk_payload(shortc(0, 65) + E, 3, 2, role=255)]
+    out += [mk_payload(shortc(0, 65) + E, 3, 2, title=t) for t in BAD_UTF8]          # from_utf8_lossy on the title
     full = mk_payload(shortc(0, 65) + E, 3, 2)
     out += [full[:k] for k in range(0, len(full))]                       # the header cut at every byte
     return out
 
-IMPL_CLASS = {'load:header-size': [1, 1], 'load:length': [1, 2], 'load:layer-mode': [1, 3], 'load:font-slot': [1, 4]}
+IMPL_CLASS = {'load:header-size': [1, 1], 'load:length': [1, 2], 'load:layer-mode': [1, 3], 'load:font-slot': [1, 4],
+              'load:invalid-char': [1, 10]}
 
 def impl_class(r):
     """implementation outcome of an `icyload` case as the model's outcome prefix"""
@@ -396,17 +433,30 @@ def impl_class(r):
     if r[0] == 'ok': return norm_doc_vec([0] + doc_vec(L.parse_obs(r[1])))
     if r[0] == 'err': return IMPL_CLASS.get(r[1], ['err', r[1]])
     if r[0] == 'panic': return [2, 'panic']
-    if r[0] == 'abort': return [2, 2]
-    return [r[0], r[1]]
+    return [r[0], r[1]]          # abort / timeout / oom / …: the model of the merged loader has no such outcome
 
 def model_class(m):
     if m is None: return None
     if m[0] == 0: return norm_doc_vec(m)
-    if m[0] == 2: return [2, 2] if m[1] == 2 else [2, 'panic']
+    if m[0] == 2: return [2, 'panic']
     return m
+
+ICED_OK = bytes([0, 0, 0, 0, 0, 0, 1, 0, 1, 1, 1, 3, 0, 0, 0, 2, 0, 0, 0])
+
+def default_font_name(ctx):
+    """name of the font Buffer::new installs in slot 0 (the model's `default_font` is an opaque parameter): read off a
+    document that was loaded from a file without FONT_ chunks"""
+    r = ctx.impl(['icyload ' + L.hexs(L.make_icy([('ICED', ICED_OK), ('END', b'')]))], per_case_timeout=20, mem_mb=2048)[0]
+    if r[0] != 'ok': return None
+    return L.parse_obs(r[1])['fonts'].get(0, {}).get('name')
 
 def correspondence(ctx):
     rng = ctx.rng
+    dname = default_font_name(ctx)
+    if dname is None:
+        return {'cases': 1, 'disagreements': [{'case': 'a file with ICED and END only', 'impl': 'does not load / has no font in slot 0',
+                                               'model': 'loads; slot 0 holds the default font'}], 'distinct_nontrivial': 0, 'distribution': {}, 'samples': []}
+    run_load = 'run_load %s ' % L.g_bytes(dname)
     docs = list(directed_docs())
     for i in range(ctx.n(36, 260)):
         docs.append(('rand-%d' % i, rand_doc(rng, 'small' if rng.random() < 0.7 else 'medium')))
@@ -445,10 +495,10 @@ def correspondence(ctx):
             for k, p in chunks: want += [len(k)] + list(k.encode('latin-1')) + [len(p)]
             want += list(dict(chunks)['ICED'])
             exprs.append('run_chunks %s' % g_xdoc(d, chunks)); meta.append(('%s: chunk keywords/order/lengths + ICED payload' % name, want))
-            exprs.append('run_load %s' % g_chunks(chunks)); meta.append(('%s: load_chunks vs reloaded document' % name, norm_doc_vec([0] + doc_vec(o2))))
+            exprs.append(run_load + g_chunks(chunks)); meta.append(('%s: load_chunks vs reloaded document' % name, norm_doc_vec([0] + doc_vec(o2))))
     # damaged payloads through python-built files
     dmg = []
-    iced_ok = bytes([0, 0, 0, 0, 0, 0, 1, 0, 1, 1, 1, 3, 0, 0, 0, 2, 0, 0, 0])
+    iced_ok = ICED_OK
     font0 = None
     for (name, d), r in zip(docs, impl):
         if r and r[0] == 'ok':
@@ -462,16 +512,20 @@ def correspondence(ctx):
         if k < 0.08: chunks = [('LAYER_0', p)]                                        # no header, no END
         elif k < 0.12: chunks = [('ICED', iced_ok[:rng.choice([0, 18])] + bytes(rng.choice([0, 2]))), ('LAYER_0', p)]
         elif k < 0.16: chunks.insert(1, (rng.choice(['LAYER_0~1', 'xLAYER_12~3', 'LAYER_~1', 'LAYER_1~', 'LAYERS', 'layer_0', 'FOO', 'FONT_x', 'FONT_', 'FONT_-1']), p))
-        elif k < 0.2 and font0: chunks.insert(1, (rng.choice(['FONT_7', 'FONT_007', 'FONT_0']), rng.choice([font0, font0[:3], (1 << 20).to_bytes(4, 'little') + font0[4:]])))
+        elif k < 0.2 and font0: chunks.insert(1, (rng.choice(['FONT_7', 'FONT_007', 'FONT_0']), rng.choice([font0, font0[:3], (1 << 20).to_bytes(4, 'little') + font0[4:],
+                                                                                                            font_with_name(font0, rng.choice(BAD_UTF8)), font_with_name(font0, rand_bytes(rng))])))
         elif k < 0.24: chunks[0] = ('ICED', bytes(rng.randrange(256) for _ in range(15)) + bytes([rng.randrange(4), 0, 0, 0]))
         dmg.append(chunks)
     for p in directed_payloads():
         dmg.append([('ICED', iced_ok), ('LAYER_0', p), ('END', b'')])
+    if font0:                                                # read_utf8_encoded_string on font names: from_utf8_lossy
+        for i, nm in enumerate(BAD_UTF8):
+            dmg.append([('ICED', iced_ok), ('FONT_%d' % (i % 3), font_with_name(font0, nm)), ('END', b'')])
     dist['damaged_payloads'] = len(dmg)
     dcases = ['icyload ' + L.hexs(L.make_icy(c)) for c in dmg]
     dimpl = ctx.impl(dcases, per_case_timeout=20, mem_mb=2048) if dcases else []
     nd = len(exprs)
-    exprs += ['run_load %s' % g_chunks(c) for c in dmg]
+    exprs += [run_load + g_chunks(c) for c in dmg]
     model = ctx.model(IMPORTS, exprs, timeout=ctx.n(600, 1500))
     for (label, want), m in zip(meta, model[:nd]):
         if label.endswith('reloaded document'): m = norm_doc_vec(m)
